@@ -27,6 +27,9 @@ For every well-formed suite (`Suite.WF`: TLS 1.0–1.3; AEAD with prefix or XOR 
   post-handshake message and fails above `maxUselessRecords` = 32 — so this is a statement about
   that counter: without the reset the premise `retry = 0` of `drainHand_ku` fails and neither this
   theorem nor `stream_integrity` would go through;
+* `interleaved_useless_harmless` (+ `ignorable_flights_exist`) — any number of ignorable records
+  (empty application data) interleaved with data and KeyUpdates, never more than 32 in a row, never
+  fails a `Read`, for any sequence of buffer sizes; the data arrives in order;
 * `seq_in_lockstep` — whenever a direction is drained, writer and reader agree on key, secret and
   sequence number (also across any number of KeyUpdates); `seq_advances` — one per record, reset
   with a new epoch on KeyUpdate;
@@ -77,6 +80,9 @@ private theorem flight_raw_nil' {C : Crypto} {s : Suite} {r : Half} {raw : Bytes
     obtain ⟨t, body, hrec, _⟩ := hg.framed
     rw [hrec] at hraw; simp [hdr] at hraw
   | ku _ hg _ =>
+    obtain ⟨t, body, hrec, _⟩ := hg.framed
+    rw [hrec] at hraw; simp [hdr] at hraw
+  | skip hg _ =>
     obtain ⟨t, body, hrec, _⟩ := hg.framed
     rw [hrec] at hraw; simp [hdr] at hraw
 
@@ -131,8 +137,8 @@ private theorem run_ku_write_ghost (C : Crypto) (s : Suite) (hs : s.WF) (hC : C.
   induction n with
   | zero =>
     intro σ h
-    have haoe : σ.a.outErr = none := h.1.choose_spec.2.2.2.2.2.2
-    have hboe : σ.b.outErr = none := h.2.1.choose_spec.2.2.2.2.2.2
+    have haoe : σ.a.outErr = none := h.1.choose_spec.2.2.2.2.2.2.1
+    have hboe : σ.b.outErr = none := h.2.1.choose_spec.2.2.2.2.2.2.1
     simp [run, step, haoe, hboe]
   | succ n ih =>
     intro σ h
@@ -175,6 +181,77 @@ theorem keyupdate_runs_harmless (C : Crypto) (s : Suite) (hs : s.WF) (hC : C.Law
     refine ⟨hok, he, hp hk (by rw [gs', gr', hdr]; intro hc; exact hd (by simpa using hc)), ?_⟩
     rw [gs', gr', hdr, List.append_assoc, List.append_assoc] at hsent
     exact ⟨_, List.append_cancel_left hsent⟩
+
+/-! ### ignorable records interleaved with data -/
+
+/-- `Read` calls with the given buffer sizes, one after the other: (all bytes returned, no call
+returned an error, final connection). -/
+def readMany (C : Crypto) : Conn → List Nat → Bytes × Bool × Conn
+  | c, [] => ([], true, c)
+  | c, n :: ns =>
+    let r := read C c n
+    let t := readMany C r.c ns
+    (r.data ++ t.1, r.err.isNone && t.2.1, t.2.2)
+
+/-- items a peer can legitimately put on the wire. -/
+def ItemsWF (s : Suite) : List Item → Prop
+  | [] => True
+  | .app d :: is => d ≠ [] ∧ d.length ≤ maxPlaintext ∧ ItemsWF s is
+  | .ku _ :: is => s.vers = v13 ∧ ItemsWF s is
+  | .skip :: is => ItemsWF s is
+
+/-- every such sequence — data chunks, KeyUpdates, and **empty application-data records** (`skip`) in
+any order and number — is what the peer's `encrypt` produces, one record per item, as a flight. -/
+theorem ignorable_flights_exist (C : Crypto) (s : Suite) (hs : s.WF) (hC : C.Laws s.tagLen s.macLen) (items : List Item) :
+    ItemsWF s items → ∀ r w : Half, Sync s r w → ∃ raw w', Flight C s r raw items w' := by
+  induction items with
+  | nil => intro _ r w hsy; exact ⟨[], w, Flight.nil hsy⟩
+  | cons i is ih =>
+    intro hwf r w hsy
+    cases i with
+    | app d =>
+      obtain ⟨hne, hd, hwf'⟩ := hwf
+      obtain ⟨r', hg, hsy'⟩ := genuine_encrypt C s hs hC r w hsy tApp (by decide) (by decide) (by decide) d hd
+      obtain ⟨raw, w', hF⟩ := ih hwf' _ _ hsy'
+      exact ⟨_, w', Flight.app hg hne hd hF⟩
+    | ku req =>
+      obtain ⟨hv, hwf'⟩ := hwf
+      obtain ⟨r', hg, hsy'⟩ := genuine_encrypt C s hs hC r w hsy tHs (by decide) (by decide) (by decide)
+        (keyUpdateMsg req) (by simp [keyUpdateMsg]; decide)
+      obtain ⟨raw, w', hF⟩ := ih hwf' _ _ (sync_rekey C s hs hv _ _ hC _ _ hsy')
+      exact ⟨_, w', Flight.ku hv hg hF⟩
+    | skip =>
+      obtain ⟨r', hg, hsy'⟩ := genuine_encrypt C s hs hC r w hsy tApp (by decide) (by decide) (by decide) [] (by decide)
+      obtain ⟨raw, w', hF⟩ := ih hwf _ _ hsy'
+      exact ⟨_, w', Flight.skip hg hF⟩
+
+/-- **interleaved_useless_harmless**: the reader `rd` has a flight waiting that contains **any number**
+of ignorable records (empty application data) interleaved in any way with data and KeyUpdates,
+subject only to what the code itself demands (`okRuns`: never more than `maxUselessRecords` = 32
+ignorable records *in a row* — non-empty data resets `retryCount`, so the total is unbounded).
+Then for every sequence of `Read` calls with any buffer sizes: no call fails, and the bytes
+returned are, in order, a prefix of (buffered input ‖ the data chunks in flight). The counter in the
+model is reset exactly where `readRecordOrCCS` resets it (`afterDecrypt`: every non-empty record that
+is not alert/CCS), which is what makes `okRuns` an invariant of reading.
+TLS ≤ 1.2 warning alerts are ignorable in the same way in `dispatch`/`retryStep`; they are covered by
+the correspondence family, not by this theorem (the model's close_notify peek handles one alert
+per call, `retryReadRecord` recurses). -/
+theorem interleaved_useless_harmless (C : Crypto) (s : Suite) (hs : s.WF) (ns : List Nat) :
+    ∀ (rd : Conn) (items : List Item) (wout : Half), Flight C s rd.inn rd.raw items wout → okRuns rd.retry items →
+      rd.hand = [] → rd.inErr = none → rd.p.s = s →
+      (readMany C rd ns).2.1 = true ∧
+      ∃ rest, rd.input ++ appBytes items = (readMany C rd ns).1 ++ (readMany C rd ns).2.2.input ++ appBytes rest := by
+  induction ns with
+  | nil => intro rd items wout _ _ _ _ _; exact ⟨rfl, items, by simp [readMany]⟩
+  | cons n ns ih =>
+    intro rd items wout hF hok hh he hp
+    obtain ⟨herr, rest, hdata, hF', hh', he', hp', _, _, hok', _, _, _⟩ :=
+      read_flight C s hs (fun _ _ => True) (fun _ _ _ _ => trivial) rd n items wout hF hh he hp trivial hok
+    obtain ⟨hok2, rest2, hdata2⟩ := ih (read C rd n).c rest wout hF' hok' hh' he' (by rw [hp']; exact hp)
+    refine ⟨by simp [readMany, herr, hok2], rest2, ?_⟩
+    simp only [readMany]
+    rw [hdata, List.append_assoc, List.append_assoc, hdata2]
+    simp [List.append_assoc]
 
 /-- **seq_in_lockstep**: in any reachable state, when a direction is drained (the reader has parsed
 every byte the writer sent) the reader's incoming half and the writer's outgoing half agree on key,
@@ -223,6 +300,18 @@ private theorem flight_wellFramed {C : Crypto} {s : Suite} {r : Half} {raw : Byt
       · cases h; exact ⟨List.length_pos_iff.mpr hne, hd⟩
       · exact hit d' hm
   | ku _ hg _ ih =>
+    obtain ⟨⟨recs, hr, hall⟩, hit⟩ := ih
+    obtain ⟨t, body, hrec, hlim, _⟩ := hg.framed
+    refine ⟨⟨_ :: recs, by rw [hr]; rfl, ?_⟩, ?_⟩
+    · intro rec hm
+      rcases List.mem_cons.mp hm with rfl | hm
+      · exact ⟨t, body, hrec, hlim⟩
+      · exact hall rec hm
+    · intro d' hm
+      rcases List.mem_cons.mp hm with h | hm
+      · cases h
+      · exact hit d' hm
+  | skip hg _ ih =>
     obtain ⟨⟨recs, hr, hall⟩, hit⟩ := ih
     obtain ⟨t, body, hrec, hlim, _⟩ := hg.framed
     refine ⟨⟨_ :: recs, by rw [hr]; rfl, ?_⟩, ?_⟩
